@@ -169,6 +169,63 @@ def truncated_cli(c, archives, cuts_per_archive):
     return runs
 
 
+def truncated_extract_intact(c):
+    """C06, the CLI's half of 'before that error it returns exactly the entries that had been completely written, with
+    unaltered contents': an archive with one large entry and several small ones, cut inside its end marker (every entry
+    is complete) and inside its last entry; `pna extract` must fail AND leave every completely written entry on disk
+    intact — whatever the worker pool was still doing when the reader met the cut (seeded C06-4: jobs handed to the pool
+    without waiting for them, the error returns first and the process exits)"""
+    runs = 0
+    with cli.Sandbox("truncx") as sb:
+        t = sb.path("t")
+        os.makedirs(t)
+        block = os.urandom(1 << 20)
+        files = {"big.bin": block * 24}
+        for i in range(8):
+            files["s%d.txt" % i] = (b"small %d " % i) * (20 + i)
+        for n, d in files.items():
+            with open(os.path.join(t, n), "wb") as fh:
+                fh.write(d)
+        a = sb.path("a.pna")
+        r = cli.run_pna(["create", a, "--overwrite", "--store", "-r", "t"], cwd=sb.root, timeout=120)
+        if r["rc"] != 0:
+            raise RuntimeError("cannot create the sample archive: %r" % r["err"][-300:])
+        order = [l for l in cli.run_pna(["list", a], cwd=sb.root, timeout=60)["out"].decode().split("\n") if l]
+        data = open(a, "rb").read()
+        for threads in (None, 2):
+            for back, maybe_incomplete in ((1, None), (5, None), (12, None), (40, order[-1] if order else None)):
+                cut = len(data) - back
+                p = sb.path("cut.pna")
+                with open(p, "wb") as fh:
+                    fh.write(data[:cut])
+                o = sb.path("o_%d_%s" % (back, threads))
+                r = cli.run_pna(["extract", p, "--out-dir", o, "--overwrite"], cwd=sb.root, timeout=120, threads=threads)
+                runs += 1
+                bad = []
+                if r["timeout"]: bad.append("hangs")
+                elif r["rc"] == 0: bad.append("reports success")
+                elif r["rc"] == 101 or (r["rc"] is not None and r["rc"] < 0): bad.append("crashes (status %s)" % r["rc"])
+                for n, d in files.items():
+                    if maybe_incomplete == "t/" + n:
+                        continue
+                    q = os.path.join(o, "t", n)
+                    if not os.path.exists(q):
+                        bad.append("the completely written entry t/%s is missing" % n)
+                    elif open(q, "rb").read() != d:
+                        bad.append("the completely written entry t/%s has %d of %d bytes or other content" % (n, os.path.getsize(q), len(d)))
+                if bad:
+                    c.violations.append(("cli", "`pna extract` on an archive cut %d bytes before its end: %s" % (back, "; ".join(bad[:4])),
+                                         "archive: pna create a.pna --store -r t with t/big.bin (24 MiB) and t/s0.txt .. t/s7.txt, entry order %s\n"
+                                         "cut: %d of %d bytes\ncommand: %s (RAYON_NUM_THREADS=%s)\nexit status: %s\nstderr: %s"
+                                         % (order, cut, len(data), r["cmd"].replace(sb.root, "<sandbox>"), threads, r["rc"],
+                                            r["err"].decode("utf-8", "replace")[-300:]), True))
+                shutil.rmtree(o, ignore_errors=True)
+    c.cov["evaluations"] += runs
+    c.cov["cli_runs"] = c.cov.get("cli_runs", 0) + runs
+    c.hist["cli:extract of a cut archive, completed entries intact"] = runs
+    return runs
+
+
 def chunk_list_offsets(c, archives):
     """C18: offsets printed by `pna experimental chunk list` against the model's offsets and against
     the real file offsets (the chunk found at each printed offset must be the chunk listed)"""
